@@ -114,6 +114,11 @@ class ParCons(RankAggAlgorithm, PairwiseBasedAlgorithm):
             else:
                 # creation of a new Dataset representing the sub-problem
                 sub_problem = dataset.sub_problem_from_elements(set_current_elements)
+                # the projection drops the rankings that contain no element of the component, but these rankings
+                # still count in the sub-problem: all the pairs are "both non-ranked" in them (penalties B[5] / T[5])
+                nb_rankings_dropped: int = dataset.nb_rankings - sub_problem.nb_rankings
+                if nb_rankings_dropped > 0:
+                    sub_problem = Dataset(sub_problem.rankings + [Ranking([]) for _ in range(nb_rankings_dropped)])
                 if len(scc_i) > self._bound_for_exact:
                     cons_ext = self._auxiliary_alg.compute_consensus_rankings(
                         sub_problem, scoring_scheme, True).consensus_rankings[0]
